@@ -83,7 +83,7 @@ Proof. exact inv_reachable_x. Qed.
 
 (* ---------- interleaved semantics (Model/Conc.v): every schedule of suspended requests, disconnects, time-outs ---------- *)
 From Coq Require Import List NArith.
-From NW Require Import Model.Conc Proofs.ConcDefs Proofs.ConcEv Proofs.ConcInv Proofs.ConcSmall Proofs.ConcSource Gen.ConcFlags.
+From NW Require Import Model.Conc Proofs.ConcDefs Proofs.ConcEv Proofs.ConcInv Proofs.ConcSmall Proofs.ConcMore Proofs.ConcProgress Proofs.ConcSource Gen.ConcFlags.
 Import ListNotations.
 Local Open Scope N_scope.
 
